@@ -43,6 +43,8 @@ import (
 
 const (
 	nAlerts     = 3
+	bulkLo      = 10 // ids bulkLo..bulkHi form a large group: its log entry exceeds the gossip packet limit
+	bulkHi      = 99
 	peerTimeout = 15 * time.Second
 )
 
@@ -69,6 +71,9 @@ func hashOf(ls model.LabelSet) uint64 {
 var idOfHash = func() map[uint64]int {
 	m := map[uint64]int{}
 	for i := 1; i <= nAlerts; i++ {
+		m[hashOf(labelsOf(i))] = i
+	}
+	for i := bulkLo; i <= bulkHi; i++ {
 		m[hashOf(labelsOf(i))] = i
 	}
 	return m
@@ -99,26 +104,41 @@ type inst struct {
 	pos     int
 	log     *nflog.Log
 	stage   notify.RoutingStage
-	accept  atomic.Bool
+	ints    []*integ
 	inMerge atomic.Bool
 	bcasts  [][]byte
 }
 
-func (n *inst) Notify(ctx context.Context, as ...*alert.Alert) (bool, error) {
-	if !n.accept.Load() {
+// integ is one integration of the receiver on one instance.
+type integ struct {
+	n      *inst
+	k      int
+	accept atomic.Bool
+}
+
+func (g *integ) Notify(ctx context.Context, as ...*alert.Alert) (bool, error) {
+	n := g.n
+	if !g.accept.Load() {
 		return false, errors.New("rejected")
 	}
-	var f, r []string
+	var fi, ri []int
 	for _, a := range as {
+		id, _ := strconv.Atoi(string(a.Labels["id"]))
 		if a.Resolved() {
-			r = append(r, string(a.Labels["id"]))
+			ri = append(ri, id)
 		} else {
-			f = append(f, string(a.Labels["id"]))
+			fi = append(fi, id)
 		}
 	}
-	sort.Strings(f)
-	sort.Strings(r)
-	n.w.record(fmt.Sprintf("sent %d %s/%s", n.idx, hx.Join(f, "."), hx.Join(r, ".")))
+	num := func(l []int) string {
+		sort.Ints(l)
+		s := make([]string, len(l))
+		for i, v := range l {
+			s[i] = strconv.Itoa(v)
+		}
+		return hx.Join(s, ".")
+	}
+	n.w.record(fmt.Sprintf("sent %d %d %s/%s", n.idx, g.k, num(fi), num(ri)))
 	return false, nil
 }
 
@@ -134,6 +154,7 @@ type world struct {
 	retention time.Duration
 	repeat    time.Duration
 	sendRes   bool
+	nint      int
 	insts     []*inst
 	delay     [][]int64 // per link, ns; -1 = drop
 	cancel    context.CancelFunc
@@ -174,7 +195,7 @@ func (w *world) decode(b []byte) string {
 	if err := protodelim.UnmarshalFrom(bytes.NewReader(b), &m); err != nil {
 		return "undecodable"
 	}
-	return fmt.Sprintf("%d,%d,%s,%s", w.rel(m.Entry.Timestamp.AsTime()), w.rel(m.ExpiresAt.AsTime()), ids(m.Entry.FiringAlerts), ids(m.Entry.ResolvedAlerts))
+	return fmt.Sprintf("%d %d,%d,%s,%s", m.Entry.Receiver.Idx, w.rel(m.Entry.Timestamp.AsTime()), w.rel(m.ExpiresAt.AsTime()), ids(m.Entry.FiringAlerts), ids(m.Entry.ResolvedAlerts))
 }
 
 func (w *world) buildInst(n *inst, snap []byte) {
@@ -215,7 +236,11 @@ func (w *world) buildInst(n *inst, snap []byte) {
 	silencer := silence.NewSilencer(sil, logger, eventrecorder.NopRecorder())
 	pbld := notify.NewPipelineBuilder(prometheus.NewRegistry(), featurecontrol.NoopFlags{}, eventrecorder.NopRecorder())
 	pos := n.pos
-	n.stage = pbld.New(map[string][]notify.Integration{"r": {notify.NewIntegration(n, sr(w.sendRes), "fake", 0, "r")}},
+	var its []notify.Integration
+	for _, g := range n.ints {
+		its = append(its, notify.NewIntegration(g, sr(w.sendRes), "fake", g.k, "r"))
+	}
+	n.stage = pbld.New(map[string][]notify.Integration{"r": its},
 		func() time.Duration { return time.Duration(pos) * peerTimeout },
 		w.inhibitor, silencer, timeinterval.NewIntervener(nil), marker.NewGroupMarker(), n.log, nil)
 }
@@ -230,6 +255,14 @@ func (w *world) deliver(src, dst *inst, b []byte) {
 }
 
 func (w *world) entry(n *inst) string {
+	s := make([]string, w.nint)
+	for k := range s {
+		s[k] = w.entryK(n, k)
+	}
+	return strings.Join(s, "|")
+}
+
+func (w *world) entryK(n *inst, k int) string {
 	b, _ := n.log.MarshalBinary()
 	br := bytes.NewReader(b)
 	for br.Len() > 0 {
@@ -237,7 +270,7 @@ func (w *world) entry(n *inst) string {
 		if err := protodelim.UnmarshalFrom(br, &m); err != nil {
 			break
 		}
-		if string(m.Entry.GroupKey) == "g" {
+		if string(m.Entry.GroupKey) == "g" && int(m.Entry.Receiver.Idx) == k {
 			return fmt.Sprintf("%d,%d,%s,%s", w.rel(m.Entry.Timestamp.AsTime()), w.rel(m.ExpiresAt.AsTime()), ids(m.Entry.FiringAlerts), ids(m.Entry.ResolvedAlerts))
 		}
 	}
@@ -305,7 +338,9 @@ func (w *world) exec(line string) string {
 			if skews[i] == "x" {
 				continue // instance down / does not hold the alerts in this round
 			}
-			n.accept.Store(t[4][i] == '1')
+			for k, g := range n.ints {
+				g.accept.Store(t[4][i*w.nint+k] == '1')
+			}
 			sk := hx.Atoi64(skews[i])
 			wg.Add(1)
 			go func(n *inst) {
@@ -371,6 +406,8 @@ func runCase(t *testing.T, tr *hx.Trace, id int, r *rand.Rand, script []string) 
 					w.repeat = time.Duration(hx.Atoi64(kv[1]))
 				case "sr":
 					w.sendRes = kv[1] == "1"
+				case "k":
+					w.nint, _ = strconv.Atoi(kv[1])
 				case "pos":
 					for _, p := range strings.Split(kv[1], ",") {
 						v, _ := strconv.Atoi(p)
@@ -385,6 +422,7 @@ func runCase(t *testing.T, tr *hx.Trace, id int, r *rand.Rand, script []string) 
 			w.repeat = time.Duration(int64(1+r.IntN(4)) * 60 * sec)
 			w.retention = time.Duration(int64(2+r.IntN(8)) * 60 * sec)
 			w.sendRes = r.IntN(3) > 0
+			w.nint = 1 + r.IntN(2)
 			ps := make([]string, n)
 			for i, p := range poss {
 				ps[i] = strconv.Itoa(p)
@@ -393,7 +431,7 @@ func runCase(t *testing.T, tr *hx.Trace, id int, r *rand.Rand, script []string) 
 			if w.sendRes {
 				srv = 1
 			}
-			header = fmt.Sprintf("case %d retention=%d repeat=%d sr=%d pos=%s", id, int64(w.retention), int64(w.repeat), srv, strings.Join(ps, ","))
+			header = fmt.Sprintf("case %d retention=%d repeat=%d sr=%d k=%d pos=%s", id, int64(w.retention), int64(w.repeat), srv, w.nint, strings.Join(ps, ","))
 		}
 		logger := promslog.NewNopLogger()
 		ctx, cancel := context.WithCancel(context.Background())
@@ -407,7 +445,14 @@ func runCase(t *testing.T, tr *hx.Trace, id int, r *rand.Rand, script []string) 
 		w.delay = make([][]int64, n)
 		for i := range n {
 			w.delay[i] = make([]int64, n)
-			w.insts = append(w.insts, &inst{w: w, idx: i, pos: poss[i]})
+			in := &inst{w: w, idx: i, pos: poss[i]}
+			if w.nint == 0 {
+				w.nint = 1
+			}
+			for k := range w.nint {
+				in.ints = append(in.ints, &integ{n: in, k: k})
+			}
+			w.insts = append(w.insts, in)
 		}
 		for _, in := range w.insts {
 			w.buildInst(in, nil)
@@ -438,6 +483,7 @@ func runCase(t *testing.T, tr *hx.Trace, id int, r *rand.Rand, script []string) 
 			return
 		}
 		state := make([]byte, nAlerts+1)
+		bulk := byte(0)
 		now := int64(0)
 		healthy := r.IntN(2) == 0 // half of the cases keep every round healthy
 		nops := 4 + r.IntN(8)
@@ -465,6 +511,24 @@ func runCase(t *testing.T, tr *hx.Trace, id int, r *rand.Rand, script []string) 
 						as = append(as, fmt.Sprintf("%d:%c", i, state[i]))
 					}
 				}
+				// a large group now and then: its log entry is an oversized gossip message
+				switch r.IntN(10) {
+				case 0:
+					bulk = 'f'
+				case 1:
+					if bulk == 'f' {
+						bulk = 'r'
+					}
+				case 2:
+					if bulk == 'r' {
+						bulk = 0
+					}
+				}
+				if bulk != 0 {
+					for i := bulkLo; i <= bulkHi; i++ {
+						as = append(as, fmt.Sprintf("%d:%c", i, bulk))
+					}
+				}
 				skews := make([]string, n)
 				acc := ""
 				for i := range n {
@@ -473,10 +537,12 @@ func runCase(t *testing.T, tr *hx.Trace, id int, r *rand.Rand, script []string) 
 					if !healthy && r.IntN(8) == 0 {
 						skews[i] = "x"
 					}
-					if !healthy && r.IntN(6) == 0 {
-						acc += "0"
-					} else {
-						acc += "1"
+					for range w.nint {
+						if !healthy && r.IntN(6) == 0 {
+							acc += "0"
+						} else {
+							acc += "1"
+						}
 					}
 				}
 				rows := make([]string, n)
